@@ -187,8 +187,16 @@ def run(facts, rep, tier):
         want = ex_ and not isd
         rep.check(vals == {want}, 'PA.3', f'isFile() row (exists={ex_}, isDirectory={isd}) = {sorted(map(str, vals))}', isf.shortloc(), f'expected {want}', key='PA.3|isFile', fn=isf.name)
     sz = fn['size']
-    recursive = any(n.k == 'call' and strip_targs(n.calleeq or '') == f'{P}::size' for n in sz.nodes())
-    if not recursive:
+    try: sz_end = int((sz.d.get('endloc') or '').split(':')[1])
+    except Exception: sz_end = sz.line
+    sz_scope = [sz] + [g for g in facts.fns if g.d.get('lambda') and g.file == sz.file and sz.line <= g.line <= sz_end]
+    recursive = any(n.k == 'call' and strip_targs(n.calleeq or '') == f'{P}::size' for g in sz_scope for n in g.nodes())
+    in_lambda = recursive and not any(n.k == 'call' and strip_targs(n.calleeq or '') == f'{P}::size' for n in sz.nodes())
+    if in_lambda:
+        rep.inconclusive('PA.3', 'size() of a directory', sz.shortloc(), 'the recursive size() call sits in a closure handed to a std algorithm: the per-child table is not followed')
+        recursive = False; sz_skip = True
+    else: sz_skip = False
+    if not recursive and not sz_skip:
         worklist = [n for n in sz.nodes() if n.k == 'call' and n.callee_base() in ('push_back', 'emplace_back', 'push', 'push_front', 'emplace_front', 'emplace') and n.n('object') is not None and n.n('object').k == 'ref'
                     and any(x.k == 'call' and strip_targs(x.calleeq or '') == f'{P}::join' for x in n.walk())]
         helper = [n for n in sz.nodes() if n.k == 'call' and n.callee_in_root and not strip_targs(n.calleeq or '').startswith(f'{P}::') and any(t is not None and any(x.k == 'call' and strip_targs(x.calleeq or '') == f'{P}::listChildren' for x in t.nodes()) for t in facts.resolve(n))]
@@ -221,7 +229,8 @@ def run(facts, rep, tier):
                     rep.check(r == want, 'PA.3', 'size() of a directory returns the sum of the children\'s sizes', sz.shortloc(), f'returns {Pp.ret}', key='PA.3|dir-sum', fn=sz.name)
     recj = [n for n in sz.nodes() if n.k == 'call' and strip_targs(n.calleeq or '') == f'{P}::join']
     okj = len(recj) >= 1 and recj[0].ns('args')[0] is not None and recj[0].ns('args')[0].k == 'unop' and recj[0].ns('args')[0].op == '*'
-    if recursive: rep.check(okj, 'PA.3', 'children are measured as join(*this, child)', recj[0].shortloc() if recj else sz.shortloc(), 'child sizes are not taken relative to this directory', key='PA.3|join', fn=sz.name)
+    if not recj and sz_skip: recj = [n for g in sz_scope for n in g.nodes() if n.k == 'call' and strip_targs(n.calleeq or '') == f'{P}::join']; okj = len(recj) >= 1 and recj[0].ns('args')[0] is not None and recj[0].ns('args')[0].k == 'unop' and recj[0].ns('args')[0].op == '*'
+    if recursive or sz_skip: rep.check(okj, 'PA.3', 'children are measured as join(*this, child)', recj[0].shortloc() if recj else sz.shortloc(), 'child sizes are not taken relative to this directory', key='PA.3|join', fn=sz.name)
     # ---- PA.4 -------------------------------------------------------------------------------------------------------------------------------
     joins = [f for f in facts.by_name.get(f'{P}::join', []) if len(f.d['params']) == 2 and 'basic_string' in f.d['params'][0]['ctype']]
     if len(joins) != 1: rep.anchor_missing(f'{P}::join(string, string)', f'{len(joins)} candidates')
